@@ -225,7 +225,7 @@ def _split_case(ctx, pstreams, l, m):
         if (lens, flat) != (a["model.lens"], a["model.flat"]):
             fs.append({"kind": "model", "what": "split: implementation pieces != Lean splitPieces",
                        "impl": impl_pos, "model.lens": a["model.lens"], "model.flat": a["model.flat"]})
-        for c in ("chain", "cover", "size", "nonempty"):
+        for c in ("chain", "cover", "size", "nonempty", "join"):
             if a["spec." + c] != [1]:
                 fs.append({"kind": "model", "what": f"split_arith clause {c} false on the model's own output"})
         # the clauses of split_arith on the implementation's pieces, directly
@@ -234,7 +234,9 @@ def _split_case(ctx, pstreams, l, m):
             cover = [(x, y) for p in ps for x, y in zip(p, p[1:])] == [(j, j + 1) for j in range(l - 1)]
             chain = all(p and q and p[-1] == q[0] for p, q in zip(ps, ps[1:]))
             size = m == 0 or all(2 * len(p) <= 3 * m + 1 for p in ps)
-            for nm, okv in (("cover", cover), ("chain", chain), ("size", size)):
+            # split_concat: first piece + later pieces without their first vertex = the unsplit stream
+            join = ps[0] + [v for p in ps[1:] for v in p[1:]] == list(range(l))
+            for nm, okv in (("cover", cover), ("chain", chain), ("size", size), ("concat", join)):
                 if not okv:
                     fs.append({"kind": "spec", "what": f"split: pieces violate '{nm}' (l={l}, max_len={m})", "impl": impl_pos})
         if b["spec.ok"] != [1]:
@@ -598,6 +600,13 @@ def _segments_case(ctx, rng, psubgrid, flw, ds, shape):
         if (lens, flat) != (a["model.lens"], a["model.flat"]):
             fs.append({"kind": "model", "what": "segment_indices: implementation != Lean model", "impl": impl,
                        "model.lens": a["model.lens"], "model.flat": a["model.flat"]})
+        # hypotheses of segment_indices_total(_up): with them the model provably returns (no fuel error above)
+        for h, what in (("hyp.topo", "the cell order the implementation used is not downstream-first (isTopo)"),
+                        ("hyp.covers", "the cell order does not contain every valid cell"),
+                        ("hyp.link", "idxs_nxt is neither idxs_ds nor an upstream-link array of it (idxs_us_main)"),
+                        ("hyp.outs", "outlet index out of range")):
+            if a.get(h) != [1]:
+                fs.append({"kind": "spec", "what": "hypothesis of segment_indices_total false: " + what, "flag": h})
         # consecutive vertices are linked cells (or the zero-length pit feature)
         for p in impl:
             for x, y in zip(p, p[1:]):
@@ -608,5 +617,6 @@ def _segments_case(ctx, rng, psubgrid, flw, ds, shape):
         return fs
 
     nvalid, nconf, plen = stream_net_features(ds, None)
-    ctx.add(desc, [("segment_indices", {"nxt": nxt, "idxs_out": canon_idx(out_np, n), "mask": mask, "max_len": max_len}),
+    ctx.add(desc, [("segment_indices", {"nxt": nxt, "idxs_out": canon_idx(out_np, n), "mask": mask, "max_len": max_len,
+                                        "ds": ds, "seq": canon_idx(flw.idxs_seq, n)}),
                    ("features", fargs)], judge, nontrivial=nvalid >= 2 and nconf >= 1 and plen >= 3)
